@@ -23,6 +23,8 @@ def expr_text(fn, nid, depth=0):
     if k == "UnresolvedLookupExpr":
         return n["n"]
     if k in ("MemberExpr", "CXXDependentScopeMemberExpr", "UnresolvedMemberExpr"):
+        if n.get("qual") and (not ch or n.get("implicit")):
+            return n["qual"] + n["n"]
         if n.get("anon"):
             return T(ch[0]) if ch else ""
         if not ch or n.get("implicit"):
